@@ -185,4 +185,22 @@ theorem parseStep_callPre_shift (g : Grammar) (s : List Char) (p : P) (id : Nat)
   unfold parseStep
   simp [hg, hc, hpre]
 
+/-- pre-parse of an element without ignorables (and not a `LineStart`): skip its whitespace characters, if it skips -/
+theorem preParse_plain_ws (p : P) (nd : Node) (s : List Char) (loc : Nat) (hi : nd.ignore = [])
+    (hk : ∀ w o, nd.kind ≠ .lineStart w o) :
+    preParse p nd s loc = .at (if nd.skipWs then skipWhite nd.white s loc else loc) := by
+  unfold preParse
+  cases hkk : nd.kind <;> simp [hi]
+  exact absurd hkk (hk _ _)
+
+/-- discharges `hpre` of the C04 theorems for the flags of the live objects: the `And` repeats the Forward's own skipping
+    (`pre` is already past the whitespace the `And` would skip) -/
+theorem sq_pre_of_flags (nsq : Node) (s : List Char) (loc : Nat) (hi : nsq.ignore = [])
+    (hk : ∀ w o, nsq.kind ≠ .lineStart w o) :
+    ∀ p, (if nsq.callPre then preParse p nsq s (skipWhite nsq.white s loc) else PreR.at (skipWhite nsq.white s loc))
+      = .at (skipWhite nsq.white s loc) := by
+  intro p
+  rw [preParse_plain_ws p nsq s _ hi hk, skipWhite_idem]
+  cases nsq.callPre <;> cases nsq.skipWs <;> simp
+
 end PP.Parse
